@@ -239,6 +239,7 @@ func C11(c *fw.Ctx) {
 	c.Bound("max_array_length", maxLen)
 	c.R.Rule = "breadth-first search over histories of array operations on three variables with shared ancestry (start: a=[1,2,3], b=[], c=a); after every step all variables and their লেন are printed and compared with a pure list model; states are merged on the canonical model heap (values by rank) joined with the implementation's slice fingerprint (backing-array class, cap, len of every live slice, obtained from the values Interpret returns); error steps are leaves; distinct by program text"
 	c11WriteValues(c)
+	scaleArrays(c)
 	seen := map[string]bool{}
 	type node struct{ hist []int }
 	frontier := []node{{nil}}
